@@ -59,6 +59,14 @@ def _gnim_stub(X, z, amp, nphases=4, nprocesses=1, imf_opts=None, envelope_opts=
     x = vreify(X)
     layer = c.ghost['layer_of_call']()
     ze, ae = to_real_(z), to_real_(amp)
+    exp = c.ghost.get('caller_opts')
+    if exp is not None:
+        # every layer's masked extraction runs under the option set (and number of mask phases) the caller of mask_sift passed
+        ok = opts_forwarded({'envelope_opts': exp.get('envelope_opts'), 'extrema_opts': exp.get('extrema_opts')}, {}, envelope_opts, extrema_opts)
+        want_imf = exp.get('imf_opts') or {}
+        ok = ok and all(k_ in (imf_opts or {}) and (imf_opts or {})[k_] == v_ for k_, v_ in want_imf.items())
+        ok = ok and core.concrete(nphases) == exp.get('nphases')
+        c.oblige('get_next_imf_mask:called-with-the-callers-option-set', z3.BoolVal(bool(ok)), 'pre')
     # ghost definitions: the mask frequency / amplitude used at this layer
     c.assume(z3.And(ZK(layer) == ze, AK(layer) == ae))
     return col_of(GMI(x, N, ze, ae), N), SBool(GMF(x, N, ze, ae))
@@ -75,7 +83,9 @@ def _mk_mask(c):
         c.assume(ax)
     X = vec_of(XV, N)
     mf, MF = vec('mask_freqs', LMF)
-    return (X,), dict(mask_freqs=mf, mask_amp=1, mask_amp_mode='abs', max_imfs=SInt(CAP), sift_thresh=SReal(z3.Real('sift_thresh')), nphases=2)
+    opts = {'imf_opts': {'stop_method': 'rilling', 'env_step_size': 0.5}, 'envelope_opts': {'interp_method': 'pchip'}, 'extrema_opts': {'pad_width': 3, 'parabolic_extrema': True}}
+    c.ghost['caller_opts'] = dict({k_: dict(v_) for k_, v_ in opts.items()}, nphases=2)
+    return (X,), dict(mask_freqs=mf, mask_amp=1, mask_amp_mode='abs', max_imfs=SInt(CAP), sift_thresh=SReal(z3.Real('sift_thresh')), nphases=2, **opts)
 
 
 def _decl_imf(e):
@@ -306,6 +316,31 @@ def replay(w):
                 if not np.allclose(comp[:, 0], imf[:, k], rtol=1e-12, atol=1e-12):
                     return True, 'component %d of sift is not get_next_imf applied to the input minus the first %d components (max diff %.3g)' % (k, k, np.abs(comp[:, 0] - imf[:, k]).max())
             return False, 'ok'
+        if kind == 'peel_opts':
+            # manual peeling under a NON-DEFAULT option set: component k = (masked) single-IMF extraction, with the same options, of the
+            # input minus the components before it
+            o = w['opts']
+            kw = {'imf_opts': dict(o.get('imf_opts', {})), 'envelope_opts': dict(o.get('envelope_opts', {})), 'extrema_opts': dict(o.get('extrema_opts', {}))}
+            try:
+                if w['variant'] == 'sift':
+                    imf = S.sift(x, max_imfs=w.get('cap'), **kw)
+                else:
+                    mfs = [0.25, 0.12, 0.06, 0.03, 0.015][:w.get('cap') or 5]
+                    imf = S.mask_sift(x, mask_freqs=mfs, mask_amp=0.5, mask_amp_mode='abs', nphases=w.get('nphases', 4), max_imfs=w.get('cap') or 5, **kw)
+                for k in range(imf.shape[1]):
+                    resid = x[:, None] - imf[:, :k].sum(axis=1)[:, None] if k else x[:, None].copy()
+                    if w['variant'] == 'sift':
+                        comp, _ = S.get_next_imf(resid, **kw['imf_opts'], envelope_opts=kw['envelope_opts'], extrema_opts=kw['extrema_opts'])
+                    else:
+                        comp, _ = S.get_next_imf_mask(resid, mfs[k], 0.5, nphases=w.get('nphases', 4), **kw)
+                    if not np.allclose(comp[:, 0], imf[:, k], rtol=1e-10, atol=1e-10):
+                        return True, 'component %d of %s(%s) is not the %ssingle-IMF extraction, under the same options, of the input minus the first %d components (max diff %.3g)' % (
+                            k, w['variant'], o, 'masked ' if w['variant'] != 'sift' else '', k, np.abs(comp[:, 0] - imf[:, k]).max())
+            except emd.support.EMDSiftCovergeError:
+                return False, 'convergence error (C04)'
+            except Exception as ex:
+                return True, '%s with options %s raised %s: %s' % (w['variant'], o, type(ex).__name__, str(ex)[:150])
+            return False, 'ok'
         if kind == 'cap':
             v = w['variant']
             cap = w['cap']
@@ -376,6 +411,25 @@ def refute(tier, seed, emit):
                     ok, msg = replay(w)
                     if ok:
                         emit.violation('kth-component-is-extraction-from-residual:%s-input' % dt, w, msg)
+        if emit.full:
+            return
+    OPTSETS = [{'extrema_opts': {'pad_width': 3, 'parabolic_extrema': True}},
+               {'envelope_opts': {'interp_method': 'pchip'}, 'extrema_opts': {'pad_width': 1}},
+               {'imf_opts': {'stop_method': 'rilling', 'env_step_size': 0.7}},
+               {'imf_opts': {'stop_method': 'fixed', 'max_iters': 4}, 'envelope_opts': {'interp_method': 'mono_pchip'}, 'extrema_opts': {'pad_width': 4, 'loc_pad_opts': {'mode': 'reflect', 'reflect_type': 'even'}}}]
+    if tier == 'quick':
+        OPTSETS = OPTSETS[:3]
+    emit.scope('%d signals x {sift, mask_sift (nphases 1, 4)} x %d non-default option sets (stopping rule, step size, envelope interpolation, extrema padding / parabolic extrema): every component is the (masked) single-IMF extraction UNDER THE SAME OPTIONS of the input minus the components before it' % (min(nsig, 3), len(OPTSETS)))
+    for si in range(min(nsig, 3)):
+        for oi, o in enumerate(OPTSETS):
+            for variant, nph in (('sift', None), ('mask_sift', 4), ('mask_sift', 1)):
+                emit.case(('peel_opts', si, oi, variant, nph), contract=variant)
+                w = {'kind': 'peel_opts', 'sig': si, 'variant': variant, 'opts': o, 'cap': 3}
+                if nph is not None:
+                    w['nphases'] = nph
+                ok, msg = replay(w)
+                if ok:
+                    emit.violation('kth-component-is-extraction-from-residual:same-options:%s' % variant, w, msg)
         if emit.full:
             return
     caps = [1, 2, 3, 6, 9] if tier == 'quick' else [1, 2, 3, 4, 6, 9, 12]      # (caps above the natural number of IMFs included)
